@@ -568,12 +568,9 @@ def corr_print(ctx, c, tname, rd, st, origin, text):
     """text: the implementation's to_styled_text output or None when it raised"""
     if tname not in MODEL:
         return
-    if st.get("utf8") and tname in TXT_LIKE:
-        ctx.count("corr.skip.txt_is_utf8")
-        return
     o = origin if st.get("o") else None
     op = (f"c05.print {tname} o={enc_optname(o)} r={1 if st.get('rel') else 0} hc={st.get('hcs', 128)} hs={cps(st.get('hsep', ' '))} "
-          f"bc={st.get('bcs', 32)} bs={cps(st.get('bsep', ' '))} {dump(tname, rd)}")
+          f"bc={st.get('bcs', 32)} bs={cps(st.get('bsep', ' '))} u={1 if st.get('utf8') else 0} {dump(tname, rd)}")
     ctx.corr(op, "err" if text is None else "ok " + cps(text), c)
 
 
@@ -670,6 +667,25 @@ def eval_prim(ctx: Ctx, c: dict):
         tk = dns.tokenizer.Token(dns.tokenizer.QUOTED_STRING, dns.rdata._escapify(b), True)
         if tk.unescape_to_bytes().value != b:
             _fail(ctx, "C05/charstring/unescape_to_bytes-not-inverse", f"unescape_to_bytes(_escapify({b.hex()})) differs", {"kind": "prim", "case": c})
+    elif op == "escu":
+        t = c["t"]
+        ctx.corr(f"c05.escu {cps(t)}", "ok " + cps(dns.rdata._escapify_unicode(t)), c)
+        # the Unicode form must be read back as the UTF-8 octets of the string
+        tk = dns.tokenizer.Token(dns.tokenizer.QUOTED_STRING, dns.rdata._escapify_unicode(t), True)
+        try:
+            back = tk.unescape_to_bytes().value
+        except dns.exception.DNSException as e:
+            back = e
+        if back != t.encode():
+            _fail(ctx, "C05/charstring/escapify_unicode-not-inverse",
+                  f"unescape_to_bytes(_escapify_unicode({t!r})) = {back!r}, expected {t.encode()!r}", {"kind": "prim", "case": c})
+    elif op == "utf8dec":
+        b = bytes.fromhex(c["b"])
+        try:
+            impl = "ok " + cps(b.decode())
+        except UnicodeDecodeError:
+            impl = "err"
+        ctx.corr(f"c05.utf8dec {hx(b)}", impl, c)
     elif op in ("unesc", "unescb"):
         t = c["t"]
         tk = dns.tokenizer.Token(dns.tokenizer.IDENTIFIER, t, "\\" in t)
@@ -870,6 +886,70 @@ TTL_ATOMS = ["0", "1", "9", "60", "w", "W", "d", "h", "H", "m", "s", "S", "x", "
 HEX_ATOMS = ["0", "9", "a", "f", "A", "F", "g", "G", " ", "00", "ff", "\xe9", "-", "x"]
 
 
+# code points for the txt_is_utf8 style: ASCII specials, C0, DEL, C1 / Latin-1 specials, soft hyphen, combining marks,
+# zero-width and ideographic spaces, line/paragraph separators, BOM, private use, noncharacters, astral planes
+UCP_POOL = [0x22, 0x5C, 0x20, 0x3B, 0x28, 0x29, 0x40, 0x24, 0x61, 0x5A, 0x30, 0x00, 0x01, 0x09, 0x0A, 0x0D, 0x1B, 0x1F, 0x7F,
+            0x80, 0x85, 0x9F, 0xA0, 0xA1, 0xAD, 0xE9, 0xFF, 0x100, 0x17F, 0x300, 0x301, 0x34F, 0x378, 0x660, 0x7FF, 0x800, 0x1680,
+            0x180E, 0x2000, 0x200B, 0x200C, 0x200D, 0x200E, 0x2028, 0x2029, 0x202E, 0x205F, 0x2060, 0x3000, 0x4E2D, 0xD7FF, 0xE000,
+            0xFEFF, 0xFFFD, 0xFFFE, 0xFFFF, 0x10000, 0x1F600, 0xE0001, 0xE0100, 0xF0000, 0x10FFFF]
+
+
+def gen_ustring(rng, maxbytes=255):
+    n = rng.choice([0, 1, 1, 2, 3, 5, 8, 20, 60])
+    m = rng.below(3)
+    out = ""
+    for _ in range(n):
+        if m == 0 or rng.chance(1, 2):
+            cp = rng.choice(UCP_POOL)
+        elif m == 1:
+            cp = rng.choice([rng.below(0x80), rng.range(0x80, 0x7FF), rng.range(0x800, 0xD7FF), rng.range(0xE000, 0xFFFF), rng.range(0x10000, 0x10FFFF)])
+        else:
+            cp = rng.choice([0x61, 0x62, 0x20, 0x41])
+        if len((out + chr(cp)).encode()) > maxbytes:
+            break
+        out += chr(cp)
+    return out
+
+
+def gen_utf8_txt(ctx: Ctx, scale: float, rng):
+    """TXT-like types under RdataStyle(txt_is_utf8=True): strings that are valid UTF-8, optionally mixed with one that is not"""
+    g = G(rng, [b""])
+    for tname in sorted(TXT_LIKE):
+        for _ in range(max(1, int(25 * scale))):
+            strings = [gen_ustring(rng).encode() for _ in range(rng.choice([1, 1, 2, 3]))]
+            if rng.chance(1, 5):
+                strings.insert(rng.below(len(strings) + 1), g.octets(rng.choice([1, 2, 5, 20])))
+            if rng.chance(1, 8):  # truncated / overlong / surrogate encodings: must fall back to the octet form
+                strings.append(rng.choice([b"\xc2", b"\xe2\x80", b"\xc0\xaf", b"\xed\xa0\x80", b"\xf4\x90\x80\x80", b"\xf0\x80\x80\x80",
+                                           b"a\xffb", b"\xe0\x80\x80", b"\xf8\x88\x80\x80\x80", b"\x80"]))
+            wire = b"".join(bytes([len(x)]) + x for x in strings)
+            st = {"utf8": 1}
+            c = {"kind": "rt", "type": tname, "wire": wire.hex(), "origin": None, "wire_origin": 0, "style": st, "parse": {"o": 0, "rel": 1}}
+            ctx.case(("rt-utf8", tname, wire), sample=c)
+            ctx.count("rt.txt_is_utf8")
+            eval_case(ctx, c)
+    out = []
+    for _ in range(max(1, int(150 * scale))):
+        out.append({"kind": "prim", "op": "escu", "t": gen_ustring(rng, 600)})
+    for cp in UCP_POOL:
+        out.append({"kind": "prim", "op": "escu", "t": "a" + chr(cp) + "b"})
+    for _ in range(max(1, int(150 * scale))):
+        m = rng.below(3)
+        if m == 0:
+            b = gen_ustring(rng).encode()
+            if b and rng.chance(1, 2):
+                i = rng.below(len(b))
+                b = b[:i] + bytes([rng.below(256)]) + b[i + 1:]
+        elif m == 1:
+            b = rng.bytes(rng.below(6), [0x00, 0x41, 0x7F, 0x80, 0xBF, 0xC0, 0xC1, 0xC2, 0xDF, 0xE0, 0xED, 0xEF, 0xF0, 0xF4, 0xF5, 0xFF, 0xA0, 0x9F, 0x90, 0x8F])
+        else:
+            b = g.octets(rng.below(8))
+        out.append({"kind": "prim", "op": "utf8dec", "b": b.hex()})
+    for c in out:
+        ctx.case(("prim", json.dumps(c, sort_keys=True)), sample=c)
+        eval_case(ctx, c)
+
+
 def gen_prims(ctx: Ctx, scale: float, rng):
     g = G(rng, [b""])
     n = lambda q: max(1, int(q * scale))
@@ -1026,6 +1106,7 @@ def run(ctx: Ctx):
     gen_prims(ctx, scale, rng.fork(1))
     gen_ft(ctx, scale, rng.fork(2))
     gen_generic_compressed(ctx, scale, rng.fork(3))
+    gen_utf8_txt(ctx, scale, rng.fork(4))
 
 
 def search(ctx: Ctx):
@@ -1038,6 +1119,7 @@ def search(ctx: Ctx):
     gen_prims(ctx, scale, rng.fork(1))
     gen_ft(ctx, scale, rng.fork(2))
     gen_generic_compressed(ctx, scale, rng.fork(3))
+    gen_utf8_txt(ctx, scale, rng.fork(4))
 
 
 def replay(ctx: Ctx, obj: dict):
